@@ -98,20 +98,27 @@ func HarnessC10_listref() {
 func HarnessC10_chain() {
 	c := ndScalarNN()
 	base := func() map[string]any { return map[string]any{"k": map[string]any{"d": c}, "e": 1} }
-	midOwn := ndChoice(2) == 1
+	midKind := ndChoice(3)
 	mid := map[string]any{"$merge": "base"}
 	midInl := base()
-	if midOwn {
+	if midKind >= 1 {
 		mid["own"] = 2
 		midInl["own"] = 2
+	}
+	if midKind == 2 { // a string-form reference inside the middle link (seed C10-6)
+		mid["inner"] = "$replace:base.k"
+		midInl["inner"] = map[string]any{"d": c}
 	}
 	names := [][2]string{{"mid", "top"}, {"mid", "a_top"}}[ndChoice(2)]
 	midName, topName := names[0], names[1]
 	var top, topInl any
 	pathThrough := false
-	switch ndChoice(6) {
+	switch ndChoice(7) {
 	case 0:
 		top = map[string]any{"$merge": midName}
+		topInl = vCopy(midInl)
+	case 6: // string form of $replace (seed C10-6)
+		top = "$replace:" + midName
 		topInl = vCopy(midInl)
 	case 1:
 		top = map[string]any{"$merge": midName, "loc": 3}
